@@ -339,15 +339,15 @@ type msgInfo struct {
 type expDial struct{ peer, msg int }
 
 type harness struct {
-	c        Case
-	ctx      context.Context
-	pool     streampool.StreamPool
-	hd       *handler
-	peers    []*fakePeer
-	peerIdx  map[string]int
-	tagSl    map[string][]string
-	tagMu    sync.Mutex
-	draining bool
+	c          Case
+	ctx        context.Context
+	pool       streampool.StreamPool
+	hd         *handler
+	peers      []*fakePeer
+	peerIdx    map[string]int
+	tagSl      map[string][]string
+	tagMu      sync.Mutex
+	draining   bool
 	stressFree bool
 
 	streams  []*mStream          // explicit streams by spec index, then dialled ones in integration order
